@@ -31,6 +31,16 @@ def load_inventory() -> Set[str]:
         return set()
 
 
+def load_inventory_extras() -> Tuple[Optional[Set[str]], Dict[str, Dict[str, str]]]:
+    """(module-level names of the baseline, call style of the baseline) -- see sa/callstyle.py."""
+    try:
+        with open(INVENTORY_FILE) as f:
+            d = json.load(f)
+        return (set(d['globals']) if 'globals' in d else None), d.get('call_style', {})
+    except OSError:
+        return None, {}
+
+
 def function_defs(tree: ast.Module) -> Dict[str, ast.AST]:
     """qualname -> FunctionDef, with the qualname scheme of sa.model (Class.method, outer.inner)."""
     out: Dict[str, ast.AST] = {}
@@ -155,7 +165,7 @@ class ModuleInliner:
             return False            # special methods are API, not cut-out code
         if getattr(g, '_sa_ambiguous', False):
             return False            # which definition is meant depends on the path
-        if g.decorator_list or g.args.vararg or g.args.kwarg or isinstance(g, ast.AsyncFunctionDef):
+        if g.decorator_list or g.args.kwarg or isinstance(g, ast.AsyncFunctionDef):
             return False
         if sum(1 for _ in ast.walk(g)) > MAX_HELPER_NODES:
             return False
@@ -174,15 +184,25 @@ class ModuleInliner:
     def _bind(self, call: ast.Call, q: str, recv: Optional[ast.AST], caller_names: Set[str], target=None, tail: bool = False) -> Tuple[List[ast.stmt], List[ast.stmt]]:
         """(prelude statements, callee body with parameters substituted and clashing locals renamed)."""
         g = self.defs[q]
-        if any(isinstance(a, ast.Starred) for a in call.args) or any(k.arg is None for k in call.keywords):
-            raise NotInlinable('star arguments')
         params = [a.arg for a in g.args.posonlyargs + g.args.args]
+        star = None
         args = list(call.args)
+        if g.args.vararg is not None and args and isinstance(args[-1], ast.Starred) and isinstance(args[-1].value, ast.Name):
+            star = args.pop().value       # helper(a, b, *rest) for `def helper(a, b, *rest)`: the rest is passed through whole
+        if any(isinstance(a, ast.Starred) for a in args) or any(k.arg is None for k in call.keywords):
+            raise NotInlinable('star arguments')
         if recv is not None:
             args = [recv] + args
+        if star is not None and len(args) != len(params):
+            raise NotInlinable('star argument does not line up with the variadic parameter')
+        extra: List[ast.AST] = []
         if len(args) > len(params):
-            raise NotInlinable('too many arguments')
+            if g.args.vararg is None:
+                raise NotInlinable('too many arguments')
+            args, extra = args[:len(params)], args[len(params):]
         bound: Dict[str, ast.AST] = dict(zip(params, args))
+        if g.args.vararg is not None:
+            bound[g.args.vararg.arg] = star if star is not None else ast.Tuple(elts=extra, ctx=ast.Load())
         kwonly = [a.arg for a in g.args.kwonlyargs]
         for k in call.keywords:
             if k.arg not in params + kwonly or k.arg in bound:
@@ -196,6 +216,8 @@ class ModuleInliner:
                 bound.setdefault(p, d)
         if set(params + kwonly) - set(bound):
             raise NotInlinable('missing argument')
+        if g.args.vararg is not None and any(k.arg == g.args.vararg.arg for k in call.keywords):
+            raise NotInlinable('keyword mismatch')
         self.counter += 1
         k = self.counter
         stored = {n.id for n in _own_walk(g) if isinstance(n, ast.Name) and isinstance(n.ctx, (ast.Store, ast.Del))}
@@ -461,11 +483,29 @@ class ModuleInliner:
         expressions (no hoisting, so short-circuit and conditional positions are fine)."""
         changed = [False]
         outer = self
+        called = {id(c.func) for c in ast.walk(st) if isinstance(c, ast.Call)}
+        cdef = self.defs.get(caller_q)
+        shadowed = {x.id for x in ast.walk(cdef) if isinstance(x, ast.Name) and isinstance(x.ctx, (ast.Store, ast.Del))} | \
+            {a.arg for a in ast.walk(cdef) if isinstance(a, ast.arg)} if cdef is not None else set()
 
         class T(ast.NodeTransformer):
             def visit_FunctionDef(self_, n): return n
             def visit_AsyncFunctionDef(self_, n): return n
             def visit_ClassDef(self_, n): return n
+
+            def visit_Name(self_, n):
+                # a one-expression helper handed over as a value (`key=_edge_id`): the lambda it names
+                if isinstance(n.ctx, ast.Load) and id(n) not in called and n.id in outer.defs and n.id in outer.new and n.id not in shadowed \
+                        and n.id != caller_q and outer.inlinable(n.id):
+                    g = outer.defs[n.id]
+                    e = outer._expression_helper(n.id)
+                    if e is not None and not g.args.defaults and not g.args.kwonlyargs and not g.args.vararg:
+                        changed[0] = True
+                        outer.log.append(f"{caller_q}: reference to {n.id} read as the lambda it names (line {getattr(n, 'lineno', '?')})")
+                        lam = ast.Lambda(args=ast.arguments(posonlyargs=[], args=[ast.arg(arg=a.arg) for a in g.args.posonlyargs + g.args.args], kwonlyargs=[],
+                                                            kw_defaults=[], defaults=[]), body=copy.deepcopy(e))
+                        return ast.fix_missing_locations(ast.copy_location(lam, n))
+                return n
 
             def visit_Call(self_, n):
                 self_.generic_visit(n)
@@ -501,6 +541,40 @@ class ModuleInliner:
                     new = self.expand_generator(st, r[0], r[1], caller_names)
                     self.log.append(f"{caller_q}: generator {r[0]} unrolled into its consuming loop (line {st.lineno})")
                     return new
+            # `xs = [helper(v) for v in it]` / `{k: helper(v) for ...}` with a multi-statement helper: the comprehension is the loop
+            # `xs = []; for v in it: xs.append(helper(v))` (which is then pasted into) -- the baseline's own shape for such code
+            if isinstance(st, (ast.Assign, ast.AnnAssign)) and isinstance(getattr(st, 'value', None), (ast.ListComp, ast.DictComp)) \
+                    and len(st.value.generators) == 1 and not st.value.generators[0].is_async:
+                comp = st.value
+                tgt = st.targets[0] if isinstance(st, ast.Assign) and len(st.targets) == 1 else st.target if isinstance(st, ast.AnnAssign) else None
+                elt = comp.elt if isinstance(comp, ast.ListComp) else comp.value
+                c = self._candidate(elt, caller_q)
+                simple_tgt = isinstance(tgt, ast.Name) or isinstance(tgt, ast.Subscript) and isinstance(tgt.value, ast.Name) and isinstance(tgt.slice, ast.Constant) \
+                    or isinstance(tgt, ast.Attribute) and isinstance(tgt.value, ast.Name)
+                root = tgt.id if isinstance(tgt, ast.Name) else tgt.value.id if simple_tgt else None
+                if simple_tgt and c and self._expression_helper(c[0]) is None \
+                        and root not in {n.id for n in ast.walk(comp) if isinstance(n, ast.Name)}:
+                    gen = comp.generators[0]
+                    tmp = f"__elt{self.counter + 1}"
+
+                    def tgt_as(ctx):
+                        t2 = copy.deepcopy(tgt); t2.ctx = ctx
+                        return t2
+                    init = ast.Assign(targets=[tgt_as(ast.Store())], value=ast.List(elts=[], ctx=ast.Load()) if isinstance(comp, ast.ListComp) else ast.Dict(keys=[], values=[]))
+                    bind = ast.Assign(targets=[ast.Name(id=tmp, ctx=ast.Store())], value=elt)
+                    if isinstance(comp, ast.ListComp):
+                        put: ast.stmt = ast.Expr(value=ast.Call(func=ast.Attribute(value=tgt_as(ast.Load()), attr='append', ctx=ast.Load()),
+                                                                args=[ast.Name(id=tmp, ctx=ast.Load())], keywords=[]))
+                    else:
+                        put = ast.Assign(targets=[ast.Subscript(value=tgt_as(ast.Load()), slice=comp.key, ctx=ast.Store())], value=ast.Name(id=tmp, ctx=ast.Load()))
+                    inner: List[ast.stmt] = [bind, put]
+                    for cond in reversed(gen.ifs):
+                        inner = [ast.If(test=cond, body=inner, orelse=[])]
+                    loop = ast.For(target=gen.target, iter=gen.iter, body=inner, orelse=[])
+                    caller_names.add(tmp)
+                    self.counter += 1
+                    self.log.append(f"{caller_q}: comprehension over {c[0]}(...) written out as a loop (line {st.lineno})")
+                    return [init, loop]
             header: Optional[ast.AST] = None
             mode = None; target = None
             if isinstance(st, ast.Expr):
@@ -1150,4 +1224,387 @@ def inline_new_helpers(tree: ast.Module, modname: str, inventory: Optional[Set[s
         expand_constant_kwargs(tree)
         normalize_unbound_tensor_calls(tree)
         ast.fix_missing_locations(tree)
+    log += scalarize_state_objects(tree, modname, inventory)
     return set(mi.new), log
+
+
+# ---------------------------------------------------------------------------------------------------------------------------
+# code motion: a baseline definition that now lives in another module of the package is analysed where the baseline has it
+
+def _abs_module(modname: str, st: ast.ImportFrom, is_pkg: bool = False) -> str:
+    """Absolute dotted name of the module an ImportFrom statement names (relative imports resolved against `modname`)."""
+    if not st.level:
+        return st.module or ''
+    parts = modname.split('.')
+    if not is_pkg:
+        parts = parts[:-1]
+    if st.level > 1:
+        parts = parts[:len(parts) - (st.level - 1)]
+    return '.'.join(parts + ([st.module] if st.module else []))
+
+
+def _toplevel_bindings(tree: ast.Module) -> Dict[str, Tuple[str, ast.AST]]:
+    """name -> (kind, node) for the names a module binds itself at top level: 'def' | 'class' | 'assign' | 'import'."""
+    out: Dict[str, Tuple[str, ast.AST]] = {}
+    for st in tree.body:
+        if isinstance(st, FUNC):
+            out[st.name] = ('def', st)
+        elif isinstance(st, ast.ClassDef):
+            out[st.name] = ('class', st)
+        elif isinstance(st, ast.Assign):
+            for t in st.targets:
+                for n in ast.walk(t):
+                    if isinstance(n, ast.Name):
+                        out[n.id] = ('assign', st)
+        elif isinstance(st, ast.AnnAssign) and isinstance(st.target, ast.Name):
+            out[st.target.id] = ('assign', st)
+        elif isinstance(st, ast.Import):
+            for a in st.names:
+                out[a.asname or a.name.split('.')[0]] = ('import', st)
+        elif isinstance(st, ast.ImportFrom):
+            for a in st.names:
+                if a.name != '*':
+                    out[a.asname or a.name] = ('import', st)
+    return out
+
+
+def _free_loads(node: ast.AST) -> Set[str]:
+    return {n.id for n in ast.walk(node) if isinstance(n, ast.Name) and isinstance(n.ctx, ast.Load)}
+
+
+def relocate_moved_definitions(trees: Dict[str, ast.Module], relpaths: Dict[str, str], inventory: Optional[Set[str]]) -> List[str]:
+    """A top-level function or class the inventory has in module A, absent from A today and defined (under the same name, and not
+    itself a baseline definition of that module) in exactly one other module B, was moved: the definition is put back into A's tree
+    and B imports it from A, so that every rule sees the program in its baseline layout.  The names the definition reads that B
+    binds and A does not are imported into A from B; if A binds one of them to something of its own the move is left alone (the
+    anchor is then reported as vanished, never silently accepted).  Mutates the trees; returns a log."""
+    log: List[str] = []
+    if not inventory:
+        return log
+    wanted: Dict[str, Set[str]] = {}
+    for e in inventory:
+        mod, _, q = e.partition(':')
+        wanted.setdefault(mod, set()).add(q.split('.')[0])
+    binds = {mod: _toplevel_bindings(t) for mod, t in trees.items()}
+    for mod in sorted(wanted):
+        if mod not in trees:
+            continue
+        for name in sorted(wanted[mod]):
+            here = binds[mod].get(name)
+            if here is not None and here[0] in ('def', 'class'):
+                continue
+            cands = [m2 for m2 in sorted(trees) if m2 != mod and binds[m2].get(name, ('', None))[0] in ('def', 'class')
+                     and name not in wanted.get(m2, ())]
+            if len(cands) != 1:
+                continue
+            m2 = cands[0]
+            node = binds[m2][name][1]
+            # names the definition reads at module level
+            needs = {}
+            conflict = None
+            for fn in sorted(_free_loads(node)):
+                b2 = binds[m2].get(fn)
+                if b2 is None or fn == name:
+                    continue
+                b1 = binds[mod].get(fn)
+                if b1 is None:
+                    needs[fn] = b2
+                elif b1[0] == 'import' and b2[0] == 'import':
+                    continue                                  # both import it (the usual case: torch, typing, package classes)
+                elif b1[0] == 'import' and isinstance(b1[1], ast.ImportFrom) and _abs_module(mod, b1[1]) == m2:
+                    continue                                  # A already imports it from B
+                elif b1[0] == b2[0] and ast.dump(b1[1]) == ast.dump(b2[1]):
+                    continue                                  # the same definition text in both (T = TypeVar('T'), a duplicated constant)
+                else:
+                    conflict = fn
+                    break
+            if conflict is not None:
+                log.append(f"{mod}:{name} found in {m2} but not moved back: both modules bind `{conflict}` differently")
+                continue
+            t2, t1 = trees[m2], trees[mod]
+            idx2 = t2.body.index(node)
+            back = ast.ImportFrom(module=mod, names=[ast.alias(name=name, asname=None)], level=0)
+            ast.copy_location(back, node)
+            t2.body[idx2] = back
+            for n in ast.walk(node):
+                n._src_file = relpaths[m2]
+            # where A imported it from B the definition takes the import's place
+            pos = None
+            for i, st in enumerate(t1.body):
+                if isinstance(st, ast.ImportFrom) and _abs_module(mod, st) == m2 and any((a.asname or a.name) == name for a in st.names):
+                    st.names = [a for a in st.names if (a.asname or a.name) != name]
+                    pos = i + 1
+                    if not st.names:
+                        t1.body[i] = ast.copy_location(ast.Pass(), st)
+                    break
+            if pos is None:
+                pos = max([i + 1 for i, st in enumerate(t1.body) if isinstance(st, (ast.Import, ast.ImportFrom))] or [0])
+            extra = []
+            for fn, (kind, bnode) in needs.items():
+                if kind == 'import':
+                    if isinstance(bnode, ast.Import):
+                        al = [a for a in bnode.names if (a.asname or a.name.split('.')[0]) == fn]
+                        imp = ast.Import(names=[ast.alias(name=al[0].name, asname=al[0].asname)])
+                    else:
+                        al = [a for a in bnode.names if (a.asname or a.name) == fn]
+                        imp = ast.ImportFrom(module=_abs_module(m2, bnode), names=[ast.alias(name=al[0].name, asname=al[0].asname)], level=0)
+                else:
+                    imp = ast.ImportFrom(module=m2, names=[ast.alias(name=fn, asname=None)], level=0)
+                extra.append(ast.copy_location(imp, node))
+            stars1 = {_abs_module(mod, st) for st in t1.body if isinstance(st, ast.ImportFrom) and any(a.name == '*' for a in st.names)}
+            for st in t2.body:
+                if isinstance(st, ast.ImportFrom) and any(a.name == '*' for a in st.names):
+                    sm = _abs_module(m2, st)
+                    if sm != mod and sm not in stars1:
+                        extra.append(ast.copy_location(ast.ImportFrom(module=sm, names=[ast.alias(name='*', asname=None)], level=0), node))
+            t1.body[pos:pos] = extra + [node]
+            ast.fix_missing_locations(t1); ast.fix_missing_locations(t2)
+            binds[mod] = _toplevel_bindings(t1)
+            binds[m2] = _toplevel_bindings(t2)
+            log.append(f"{mod}:{name} is defined in {relpaths[m2]} today: analysed in its baseline module")
+    return log
+
+
+# ---------------------------------------------------------------------------------------------------------------------------
+# state objects: `st = _State()` of a new record-like class, used only as `st.field`, is read as the locals it bundles
+
+def scalarize_state_objects(tree: ast.Module, modname: str, inventory: Optional[Set[str]]) -> List[str]:
+    """A class the baseline does not have, whose only method is an `__init__` of `self.f = <expr>` statements, is a bundle of
+    variables.  Where a function creates one instance (`st = C(...)`, bound once) and otherwise only reads and writes its fields
+    (after the helpers that received `st` have been pasted back or re-nested), the fields become locals of that function: the
+    baseline's shape, in which the rules recognise `stack`, `onstack`, `index`.  Anything else (the object escapes, is compared,
+    returned, stored, or a field name clashes with another name of the function) leaves the code as written."""
+    log: List[str] = []
+    if not inventory:
+        return log
+    records: Dict[str, Tuple[List[str], List[Tuple[str, ast.AST]]]] = {}
+    for c in tree.body:
+        if not isinstance(c, ast.ClassDef) or c.bases or c.decorator_list or any(e.startswith(f"{modname}:{c.name}.") for e in inventory):
+            continue
+        members = [m for m in c.body if not (isinstance(m, ast.Expr) and isinstance(m.value, ast.Constant))]
+        if len(members) != 1 or not isinstance(members[0], ast.FunctionDef) or members[0].name != '__init__':
+            continue
+        init = members[0]
+        a = init.args
+        if a.vararg or a.kwarg or a.kwonlyargs or a.posonlyargs or not a.args:
+            continue
+        selfn = a.args[0].arg
+        params = [x.arg for x in a.args[1:]]
+        fields: List[Tuple[str, ast.AST]] = []
+        ok = True
+        for s in init.body:
+            if isinstance(s, ast.Expr) and isinstance(s.value, ast.Constant):
+                continue
+            t = s.targets[0] if isinstance(s, ast.Assign) and len(s.targets) == 1 else s.target if isinstance(s, ast.AnnAssign) and s.value is not None else None
+            if not (isinstance(t, ast.Attribute) and isinstance(t.value, ast.Name) and t.value.id == selfn) or selfn in {n.id for n in ast.walk(s.value) if isinstance(n, ast.Name)}:
+                ok = False; break
+            fields.append((t.attr, s.value))
+        if ok and fields and len({f for f, _ in fields}) == len(fields) and len(a.defaults) == 0:
+            records[c.name] = (params, fields)
+    if not records:
+        return log
+
+    def outer_functions(body):
+        for st in body:
+            if isinstance(st, FUNC):
+                yield st
+            elif isinstance(st, ast.ClassDef):
+                yield from outer_functions(st.body)
+    for F in outer_functions(tree.body):
+        cands = [s for s in ast.walk(F) if isinstance(s, ast.Assign) and len(s.targets) == 1 and isinstance(s.targets[0], ast.Name)
+                 and isinstance(s.value, ast.Call) and isinstance(s.value.func, ast.Name) and s.value.func.id in records]
+        for asg in cands:
+            var = asg.targets[0].id
+            params, fields = records[asg.value.func.id]
+            call = asg.value
+            if call.keywords or len(call.args) != len(params) or not all(isinstance(x, (ast.Name, ast.Constant)) for x in call.args):
+                continue
+            fnames = [f for f, _ in fields]
+            occ = [n for n in ast.walk(F) if isinstance(n, ast.Name) and n.id == var]
+            attr_vals = {id(n.value) for n in ast.walk(F) if isinstance(n, ast.Attribute) and isinstance(n.value, ast.Name) and n.value.id == var and n.attr in fnames}
+            if sum(1 for n in occ if isinstance(n.ctx, ast.Store)) != 1 or any(id(n) not in attr_vals for n in occ if n is not asg.targets[0]):
+                continue
+            if any(isinstance(n, ast.arg) and n.arg == var for n in ast.walk(F)):
+                continue
+            others = {n.id for n in ast.walk(F) if isinstance(n, ast.Name)} | {n.arg for n in ast.walk(F) if isinstance(n, ast.arg)} \
+                | {n.name for n in ast.walk(F) if isinstance(n, (ast.FunctionDef, ast.ClassDef)) and n is not F}
+            if others & set(fnames):
+                continue
+            # the statement list that holds the creation must be F's own (not a nested function's)
+            holder = None
+            for h in ast.walk(F):
+                for fld in ('body', 'orelse', 'finalbody'):
+                    b = getattr(h, fld, None)
+                    if isinstance(b, list) and asg in b:
+                        holder = (h, b)
+            if holder is None or any(isinstance(x, FUNC) and x is not F and asg in list(ast.walk(x)) for x in ast.walk(F)):
+                continue
+            bind = dict(zip(params, call.args))
+
+            class SubParams(ast.NodeTransformer):
+                def visit_Name(self, n):
+                    return copy.deepcopy(bind[n.id]) if isinstance(n.ctx, ast.Load) and n.id in bind else n
+            inits = []
+            for fn, val in fields:
+                v = SubParams().visit(copy.deepcopy(val))
+                st = ast.Assign(targets=[ast.Name(id=fn, ctx=ast.Store())], value=v)
+                ast.copy_location(st, asg); ast.copy_location(st.targets[0], asg)
+                inits.append(st)
+            b = holder[1]
+            i = b.index(asg)
+            b[i:i + 1] = inits
+
+            class Fields(ast.NodeTransformer):
+                def visit_Attribute(self, n):
+                    if isinstance(n.value, ast.Name) and n.value.id == var and n.attr in fnames:
+                        return ast.copy_location(ast.Name(id=n.attr, ctx=n.ctx), n)
+                    self.generic_visit(n)
+                    return n
+            Fields().visit(F)
+            # nested functions that rebind a field need `nonlocal`
+            for g in [x for x in ast.walk(F) if isinstance(x, FUNC) and x is not F]:
+                stored = sorted({n.id for n in ast.walk(g) if isinstance(n, ast.Name) and isinstance(n.ctx, ast.Store) and n.id in fnames})
+                if stored:
+                    pos = 1 if g.body and isinstance(g.body[0], ast.Expr) and isinstance(g.body[0].value, ast.Constant) else 0
+                    g.body.insert(pos, ast.copy_location(ast.Nonlocal(names=stored), g.body[0]))
+            ast.fix_missing_locations(F)
+            log.append(f"{F.name}: fields of `{var} = {asg.value.func.id}(...)` read as locals ({', '.join(fnames)})")
+    return log
+
+
+def methods_from_function_aliases(tree: ast.Module, modname: str, inventory: Optional[Set[str]]) -> List[str]:
+    """`mul = staticmethod(_log_mul)` (or `mul = _log_mul`) in a class body, where `_log_mul` is a module-level function of the same
+    module and `Class.mul` is a baseline method that has no `def` any more: the class is given the method again (a copy of the
+    function under the method's name), so lookups through the class find the code instead of the base class's abstract stub."""
+    log: List[str] = []
+    if not inventory:
+        return log
+    funcs = {f.name: f for f in tree.body if isinstance(f, FUNC)}
+    for c in [x for x in ast.walk(tree) if isinstance(x, ast.ClassDef)]:
+        have = {m.name for m in c.body if isinstance(m, FUNC)}
+        for i, st in enumerate(list(c.body)):
+            if not (isinstance(st, ast.Assign) and len(st.targets) == 1 and isinstance(st.targets[0], ast.Name)):
+                continue
+            name = st.targets[0].id
+            v = st.value
+            static = isinstance(v, ast.Call) and isinstance(v.func, ast.Name) and v.func.id == 'staticmethod' and len(v.args) == 1 and not v.keywords
+            src = v.args[0] if static else v
+            if not (isinstance(src, ast.Name) and src.id in funcs) or name in have or f"{modname}:{c.name}.{name}" not in inventory:
+                continue
+            d = copy.deepcopy(funcs[src.id])
+            d.name = name
+            d.decorator_list = [ast.Name(id='staticmethod', ctx=ast.Load())] if static else []
+            ast.copy_location(d, st)
+            c.body[c.body.index(st)] = d
+            ast.fix_missing_locations(d)
+            log.append(f"{c.name}.{name} = {'staticmethod(' if static else ''}{src.id}{')' if static else ''}: read as a method definition")
+    return log
+
+
+def _imports_needed(node: ast.AST, src: str, dst: str, binds, trees) -> Optional[List[ast.stmt]]:
+    """Import statements that make the free names of `node` (a definition of module `src`) mean in module `dst` what they mean in
+    `src`; None when `dst` binds one of them to something of its own."""
+    out: List[ast.stmt] = []
+    for fn in sorted(_free_loads(node)):
+        b2 = binds[src].get(fn)
+        if b2 is None or fn == getattr(node, 'name', None):
+            continue
+        b1 = binds[dst].get(fn)
+        if b1 is None:
+            kind, bnode = b2
+            if kind == 'import':
+                if isinstance(bnode, ast.Import):
+                    al = [a for a in bnode.names if (a.asname or a.name.split('.')[0]) == fn]
+                    out.append(ast.Import(names=[ast.alias(name=al[0].name, asname=al[0].asname)]))
+                else:
+                    al = [a for a in bnode.names if (a.asname or a.name) == fn]
+                    out.append(ast.ImportFrom(module=_abs_module(src, bnode), names=[ast.alias(name=al[0].name, asname=al[0].asname)], level=0))
+            else:
+                out.append(ast.ImportFrom(module=src, names=[ast.alias(name=fn, asname=None)], level=0))
+        elif b1[0] == 'import' and b2[0] == 'import':
+            continue
+        elif b1[0] == 'import' and isinstance(b1[1], ast.ImportFrom) and _abs_module(dst, b1[1]) == src:
+            continue
+        elif b1[0] == b2[0] and ast.dump(b1[1]) == ast.dump(b2[1]):
+            continue
+        else:
+            return None
+    stars1 = {_abs_module(dst, st) for st in trees[dst].body if isinstance(st, ast.ImportFrom) and any(a.name == '*' for a in st.names)}
+    for st in trees[src].body:
+        if isinstance(st, ast.ImportFrom) and any(a.name == '*' for a in st.names):
+            sm = _abs_module(src, st)
+            if sm != dst and sm not in stars1:
+                out.append(ast.ImportFrom(module=sm, names=[ast.alias(name='*', asname=None)], level=0))
+    return out
+
+
+def adopt_foreign_helpers(trees: Dict[str, ast.Module], relpaths: Dict[str, str], inventory: Optional[Set[str]]) -> List[str]:
+    """Code cut out of a function of module A into a *new* function of another module B of the package (`domains.domain_from_json`
+    called from formats.py) is analysed where it came from: the definition is copied into A (where the per-module inliner pastes
+    it back into its callers) whenever its free names can be made to mean the same there.  B keeps its definition."""
+    log: List[str] = []
+    if not inventory:
+        return log
+    binds = {mod: _toplevel_bindings(t) for mod, t in trees.items()}
+    newdefs = {mod: {st.name: st for st in t.body if isinstance(st, ast.FunctionDef) and not st.decorator_list and f"{mod}:{st.name}" not in inventory}
+               for mod, t in trees.items()}
+    for A in sorted(trees):
+        tA = trees[A]
+        # names of A bound to package modules / to symbols of package modules
+        modalias: Dict[str, str] = {}
+        symalias: Dict[str, Tuple[str, str, ast.ImportFrom]] = {}
+        for st in tA.body:
+            if isinstance(st, ast.Import):
+                for a in st.names:
+                    if a.name in trees and a.asname:
+                        modalias[a.asname] = a.name
+            elif isinstance(st, ast.ImportFrom):
+                base = _abs_module(A, st)
+                for a in st.names:
+                    if a.name == '*':
+                        continue
+                    if f"{base}.{a.name}" in trees:
+                        modalias[a.asname or a.name] = f"{base}.{a.name}"
+                    elif base in trees:
+                        symalias[a.asname or a.name] = (base, a.name, st)
+        adopted: Dict[Tuple[str, str], str] = {}
+        for c in [x for x in ast.walk(tA) if isinstance(x, ast.Call)]:
+            B = fn = None
+            if isinstance(c.func, ast.Attribute) and isinstance(c.func.value, ast.Name) and c.func.value.id in modalias:
+                B, fn = modalias[c.func.value.id], c.func.attr
+            elif isinstance(c.func, ast.Name) and c.func.id in symalias:
+                B, fn = symalias[c.func.id][0], symalias[c.func.id][1]
+            if B is None or B == A or fn not in newdefs.get(B, {}):
+                continue
+            if (B, fn) not in adopted:
+                g = newdefs[B][fn]
+                needs = _imports_needed(g, B, A, binds, trees)
+                local = fn
+                if isinstance(c.func, ast.Attribute) and fn in binds[A]:
+                    local = f"{fn}__{B.rsplit('.', 1)[-1]}"
+                if needs is None or (local != fn and local in binds[A]):
+                    log.append(f"{A}: {B}.{fn} is new but not adopted (names differ between the modules)")
+                    adopted[(B, fn)] = ''
+                    continue
+                d = copy.deepcopy(g)
+                d.name = local
+                for n in ast.walk(d):
+                    n._src_file = relpaths[B]
+                if isinstance(c.func, ast.Name):
+                    imp = symalias[c.func.id][2]
+                    imp.names = [a for a in imp.names if (a.asname or a.name) != c.func.id]
+                    if not imp.names:
+                        tA.body[tA.body.index(imp)] = ast.copy_location(ast.Pass(), imp)
+                    d.name = local = c.func.id
+                pos = max([i + 1 for i, st in enumerate(tA.body) if isinstance(st, (ast.Import, ast.ImportFrom))] or [0])
+                for st in needs:
+                    ast.copy_location(st, g)
+                tA.body[pos:pos] = needs + [d]
+                ast.fix_missing_locations(tA)
+                binds[A] = _toplevel_bindings(tA)
+                adopted[(B, fn)] = local
+                log.append(f"{A}: new function {B}.{fn} (defined in {relpaths[B]}) is analysed with its callers here")
+            local = adopted[(B, fn)]
+            if local and isinstance(c.func, ast.Attribute):
+                c.func = ast.copy_location(ast.Name(id=local, ctx=ast.Load()), c.func)
+    return log
